@@ -99,6 +99,8 @@ class C09(Prop):
             "tls": gen.weighted([(2, st.just(False)), (1, st.just(True))]),
             # an earlier connection in this process (same WebSocket object or another) and how it ended
             "prelude": gen.prelude(6),
+            # a second live connection in the same process (interleaved with this one, or blocked in a send)
+            "companion": gen.companion(15),
         })
 
     # ------------------------------------------------------------------
